@@ -742,6 +742,7 @@ func specC11() *propertySpec {
 			{"C11-R4", "cleanups-and-context-end-with-their-case: the context is cancelled and every registered cleanup has run when the bracket returns, even if a cleanup panics (shared with C10-R2/R3/R4)", func(r *Run) { ruleC10R2(r); ruleC10R3(r); ruleC10R4(r) }},
 			{"C11-R3", "no-shared-stream-state: a stream shared between test cases is re-seeded per case and does not record; its position counter, which is not reset, is only compared with other positions of the same stream; every other T gets its own stream", ruleC11R3},
 			{"C11-R5", "no-global-per-case-state: package-level variables are not written after initialisation: nothing outside the T survives from one test case to the next (shared with C15-R4)", ruleC15R4},
+			{"C11-R6", "failure-identity-survives-minimisation: a test case in which nothing failed is never presented as the failing one: the traceback that identifies a failure keeps the frame that distinguishes a deferred flag consult from a plain skip (shared with C05-R3)", ruleC05R3},
 		},
 	}
 }
